@@ -377,7 +377,7 @@ def rewrite(src, rel, qual, k, only, kind):
     return new_src, before, line, kind, [], []
 
 
-KINDS = ('extract', 'negate-if', 'split-and', 'guard-to-else', 'intro-temp', 'reword-message', 'pos-to-kw')
+KINDS = ('extract', 'negate-if', 'split-and', 'guard-to-else', 'intro-temp', 'reword-message', 'pos-to-kw', 'rename-function', 'rename-field', 'annotate')
 
 
 def enumerate_variants(files, per_function, seed, kinds=('extract',)):
@@ -387,12 +387,22 @@ def enumerate_variants(files, per_function, seed, kinds=('extract',)):
             out += [(rel, q, k, 'extract') for rel, q, k in enumerate_extract(files, per_function, seed)]
             continue
         rnd = random.Random(seed)
+        if kind == 'rename-field':
+            out += [('-', f, 0, kind) for f in PRIVATE_FIELDS]
+            continue
         for rel, only in TARGETS.items():
             if files and rel not in files:
                 continue
             src = open(os.path.join(REPO, rel), encoding='utf-8').read()
             tree = ast.parse(src)
             for q, fn in functions_of(tree, only):
+                if kind == 'rename-function':
+                    if not fn.name.startswith('__') and not fn.decorator_list and (fn.name.startswith('_') or 'XMLElement' not in q):
+                        out.append((rel, q, 0, kind))
+                    continue
+                if kind == 'annotate':
+                    out.append((rel, q, 0, kind))
+                    continue
                 ks = list(range(len(_eligible(fn, kind))))
                 rnd.shuffle(ks)
                 for k in sorted(ks[:per_function]):
@@ -421,9 +431,84 @@ def enumerate_extract(files, per_function, seed):
     return out
 
 
+def program_wide(kind, rel, qual, root):
+    """rename-function: a private method / function gets a new name everywhere; rename-field: an instance field gets a new name
+    everywhere; annotate: every simple local assignment `x = e` of the function becomes `x: object = e`.  Edits the copy in place."""
+    import re as _re
+    files = [os.path.join(dp, f) for dp, _, fs in os.walk(os.path.join(root, 'musicxml')) for f in fs if f.endswith('.py') and '/tests' not in dp]
+    if kind == 'rename-function':
+        old = qual.split('.')[-1]
+        new = old + '_renamed' if not old.endswith('_') else old + 'renamed_'
+        pat = _re.compile(r'(?<![A-Za-z0-9_])' + _re.escape(old) + r'(?![A-Za-z0-9_])')
+        n = 0
+        for f in files:
+            src = open(f, encoding='utf-8').read()
+            new_src, k = pat.subn(new, src)
+            if k:
+                open(f, 'w', encoding='utf-8').write(new_src)
+                n += k
+        return f"{old} -> {new} ({n} occurrences)"
+    if kind == 'rename-field':
+        old = qual
+        new = old + '_x'
+        pat = _re.compile(r'(?<![A-Za-z0-9_])' + _re.escape(old) + r'(?![A-Za-z0-9_])')
+        n = 0
+        for f in files:
+            src = open(f, encoding='utf-8').read()
+            new_src, k = pat.subn(new, src)
+            if k:
+                open(f, 'w', encoding='utf-8').write(new_src)
+                n += k
+        return f"{old} -> {new} ({n} occurrences)"
+    if kind == 'annotate':
+        path = os.path.join(root, rel)
+        src = open(path, encoding='utf-8').read()
+        tree = ast.parse(src)
+        fn = dict(functions_of(tree, TARGETS[rel]))[qual]
+        n = 0
+        for node in walk_local(fn):
+            for field in ('body', 'orelse', 'finalbody'):
+                lst = getattr(node, field, None)
+                if isinstance(lst, list):
+                    for i, st in enumerate(lst):
+                        if isinstance(st, ast.Assign) and len(st.targets) == 1 and isinstance(st.targets[0], ast.Name):
+                            lst[i] = ast.AnnAssign(target=st.targets[0], annotation=ast.Name(id='object', ctx=ast.Load()), value=st.value, simple=1)
+                            n += 1
+        if not n:
+            raise ValueError('nothing to annotate')
+        ast.fix_missing_locations(fn)
+        lines = src.split('\n')
+        indent = ' ' * fn.col_offset
+        start = (fn.decorator_list[0].lineno if fn.decorator_list else fn.lineno) - 1
+        new_fn = ast.unparse(fn).split('\n')
+        open(path, 'w', encoding='utf-8').write('\n'.join(lines[:start] + [indent + l if l else l for l in new_fn] + lines[fn.end_lineno:]))
+        return f"{n} assignments annotated"
+    raise ValueError(kind)
+
+
+PRIVATE_FIELDS = ['_unordered_children', '_attributes', '_value_', '_xsd_check', '_child_container_tree', '_et_xml_element', '_kwargs', '_xml_elements',
+                  '_chosen_child', '_force_validate', '_requirements_fulfilled', '_parent_xml_element', '_required_element_names', '_PERMITTED', '_FORCED_PERMITTED',
+                  '_PATTERN', '_XSD_TREE', '_XSD_ATTRIBUTES', '_type', '_name', '_is_required', 'parent_xsd_element', 'parent_container', 'min_occurrences',
+                  'max_occurrences', '_traversed', '_SIMPLE_CONTENT', '_TYPES', '_UNION', '_ref', '_xsd_tree', '_content']
+
+
 def run_variant(spec):
     rel, qual, k, kind = spec
     rec = {'file': rel, 'function': qual, 'k': k, 'kind': kind}
+    if kind in ('rename-function', 'rename-field', 'annotate'):
+        tmp = tempfile.mkdtemp(prefix='mxsa-rf-', dir='/dev/shm')
+        try:
+            root = os.path.join(tmp, 'repo')
+            subprocess.check_call(f"cd {REPO} && git ls-files -z | rsync -a --from0 --files-from=- {REPO}/ {root}/", shell=True)
+            try:
+                rec['before'] = program_wide(kind, rel, qual, root)
+            except Exception as e:
+                rec['status'] = f'build-error: {type(e).__name__}: {e}'
+                return rec
+            rec['line'] = 0
+            return _judge(rec, tmp, root)
+        finally:
+            shutil.rmtree(tmp, ignore_errors=True)
     tmp = tempfile.mkdtemp(prefix='mxsa-rf-', dir='/dev/shm')
     try:
         src = open(os.path.join(REPO, rel), encoding='utf-8').read()
@@ -440,6 +525,13 @@ def run_variant(spec):
         root = os.path.join(tmp, 'repo')
         subprocess.check_call(f"cd {REPO} && git ls-files -z | rsync -a --from0 --files-from=- {REPO}/ {root}/", shell=True)
         open(os.path.join(root, rel), 'w', encoding='utf-8').write(new_src)
+        return _judge(rec, tmp, root)
+    finally:
+        shutil.rmtree(tmp, ignore_errors=True)
+
+
+def _judge(rec, tmp, root):
+    if True:
         t = subprocess.run(f"cd {root} && {PY} -m pytest -q -x -p no:cacheprovider 2>&1 | tail -1", shell=True, capture_output=True, text=True)
         last = t.stdout.strip().splitlines()[-1] if t.stdout.strip() else ''
         rec['tests'] = last[:80]
@@ -464,8 +556,6 @@ def run_variant(spec):
         rec['reports'] = firsts[:6]
         rec['status'] = 'FALSE-ALARM' if fired else ('ANALYSIS-ERROR' if errors else 'silent')
         return rec
-    finally:
-        shutil.rmtree(tmp, ignore_errors=True)
 
 
 def main():
